@@ -446,3 +446,320 @@ def nat_commit_after_failure(h):
                     'run fails, no descriptor, no checkpoint', (got[:2], os.listdir(d)))
         finally:
             shutil.rmtree(d, ignore_errors=True)
+
+
+# ------------------------------------------------------------------------------------------------ Flow._chain (C01)
+
+LINK_KINDS = ['flow', 'dsp', 'fn-row', 'fn-rows', 'fn-package', 'fn-other-name', 'fn-two-params', 'iterable', 'junk']
+
+
+def mk_link(it, kind):
+    """a flow link of the given kind"""
+    from pyvc.api import Opaque, PyDict, PyList, UFunc, real_function
+    from pyvc.values import Instance
+    if kind == 'flow':
+        F = real_function(it, 'dataflows.base.flow', 'Flow')
+        f = Instance(F)
+        f.attrs['chain'] = ()
+        out = Opaque('DataStreamProcessor', 'result_of_nested_flow')
+        f.attrs['_chain'] = UFunc('nested._chain', lambda it_, a, k: (f.attrs.__setitem__('_got', a[0] if a else k.get('ds')), out)[1], False)
+        f.result = out
+        return f
+    if kind == 'dsp':
+        return mk_dsp(it)
+    if kind.startswith('fn-'):
+        params = {'fn-row': ['row'], 'fn-rows': ['rows'], 'fn-package': ['package'], 'fn-other-name': ['r'],
+                  'fn-two-params': ['row', 'x']}[kind]
+        o = Opaque('callable', 'user_' + kind)
+        o.attrs['__callable__'] = True
+        o.attrs['__signature__'] = PyDict({p: p for p in params})
+        return o
+    if kind == 'iterable':
+        return PyList([])
+    return 12345        # an object that is neither a step, nor callable, nor iterable
+
+
+def sym_flow_chain(vc):
+    """Flow._chain: a left fold over the links, proved per arbitrary link position (cut loop, ghost position counter):
+         Flow -> link._chain(ds) ; DataStreamProcessor -> link(ds, position) ; callable(row|rows|package) -> the matching
+         helper processor wrapping that very callable ; iterable -> iterable_loader(link) ; the new ds has the previous ds
+         as its source and the 1-based position ; a callable with another signature -> AssertionError ; anything else ->
+         ValueError.  No path leaves ds unchanged."""
+    import z3
+    from pyvc.api import real_function, LoopSpec, check, cover, Stream, Opaque, term, IntS, UFunc
+    from pyvc.values import Instance
+    from pyvc.symex import PyExc
+    fk = vc.under_contract(B + 'flow.py', ['Flow', '_chain'])
+    for kind in LINK_KINDS:
+        def thunk(it, kind=kind):
+            F = real_function(it, 'dataflows.base.flow', 'Flow')
+            flow = it.call(F, [])
+            made = {}
+
+            def mk(it_):
+                made['link'] = mk_link(it_, kind)
+                return made['link']
+            links = Stream('links', mk)
+            flow.attrs['_preprocess_chain'] = UFunc('_preprocess_chain', lambda it_, a, k: links, True)
+            ds0 = Opaque('DataStream', 'ds0')
+            tag = '[%s]' % kind
+            expected_exc = {'fn-other-name': 'AssertionError', 'fn-two-params': 'AssertionError', 'junk': 'ValueError'}.get(kind)
+            if expected_exc:
+                it.path.info['allowed_exc'] = {expected_exc: z3.BoolVal(True)}
+
+            def at_start(it, env, elem):
+                pos, link = elem
+                return pos, link, env.lookup('ds')
+
+            def at_end(it, env, cap, events):
+                pos, link, before = cap
+                after = env.lookup('ds')
+                n = it.path.info['count:_chain#L0']
+                check(it, 'position-is-one-based-index' + tag, term(pos, IntS) == n + 1)
+                if expected_exc:
+                    check(it, 'uninterpretable-link-must-not-pass' + tag, False)
+                    return
+                if kind == 'flow':
+                    check(it, 'nested-flow-spliced' + tag, after is link.result and link.attrs.get('_got') is before)
+                elif kind == 'dsp':
+                    check(it, 'processor-chained-onto-previous' + tag, after is link and link.attrs.get('source') is before and
+                          link.attrs.get('position') is pos)
+                else:
+                    cls = {'fn-row': 'row_processor', 'fn-rows': 'rows_processor', 'fn-package': 'datapackage_processor',
+                           'iterable': 'iterable_loader'}[kind]
+                    ok = isinstance(after, Instance) and after.cls.name == cls and after.attrs.get('source') is before and \
+                        after.attrs.get('position') is pos and \
+                        (after.attrs.get('func') is link if kind != 'iterable' else after.attrs.get('iterable') is link)
+                    check(it, 'link-wrapped-by-the-matching-helper-and-chained' + tag, ok)
+                check(it, 'link-took-effect' + tag, after is not before)
+                cover(it, 'iter-reachable' + tag)
+            it.loops['Flow._chain#L0'] = LoopSpec(at_start=at_start, at_end=at_end, modes=('iter',))
+            try:
+                it.call(it.lib.getattr_(it, flow, '_chain'), [ds0])
+            except PyExc as pe:
+                check(it, 'rejected-with-the-expected-error' + tag, expected_exc is not None and pe.exc.cls == expected_exc)
+                raise
+        paths = vc.explore(fk, thunk, min_paths=1)
+        expect_no_raise_or_same(vc, fk, paths)
+
+    def thunk_empty(it):
+        F = real_function(it, 'dataflows.base.flow', 'Flow')
+        flow = it.call(F, [])
+        ds0 = Opaque('DataStream', 'ds0')
+        r = it.call(it.lib.getattr_(it, flow, '_chain'), [ds0])
+        check(it, 'empty-chain-returns-the-input', r is ds0)
+    vc.explore(fk, thunk_empty)
+
+
+def sym_flow_api(vc):
+    """results / process / datastream all evaluate the same chain: _chain().results(on_error) / _chain().process() /
+    _chain(ds)._process()"""
+    from pyvc.api import real_function, check, UFunc, Opaque, ufunc
+    fk = vc.under_contract(B + 'flow.py', ['Flow', 'results'])
+    vc.under_contract(B + 'flow.py', ['Flow', 'process'])
+    vc.under_contract(B + 'flow.py', ['Flow', 'datastream'])
+
+    def thunk(it):
+        F = real_function(it, 'dataflows.base.flow', 'Flow')
+        flow = it.call(F, [])
+        last = Opaque('DataStreamProcessor', 'last')
+        got = []
+        last.attrs['call:results'] = lambda it_, o, a, k: got.append(('results', k)) or 'RESULTS'
+        last.attrs['call:process'] = lambda it_, o, a, k: got.append(('process', k)) or 'PROCESS'
+        last.attrs['call:_process'] = lambda it_, o, a, k: got.append(('_process', k)) or 'DS'
+        seen = []
+        flow.attrs['_chain'] = UFunc('_chain', lambda it_, a, k: (seen.append(a), last)[1], False)
+        oe = ufunc('on_error')
+        check(it, 'results-of-the-chain', it.call(it.lib.getattr_(it, flow, 'results'), [], dict(on_error=oe)) == 'RESULTS' and
+              got[-1] == ('results', {'on_error': oe}) and seen[-1] == [])
+        check(it, 'process-of-the-chain', it.call(it.lib.getattr_(it, flow, 'process'), []) == 'PROCESS' and seen[-1] == [])
+        ds = Opaque('DataStream', 'ds')
+        check(it, 'datastream-of-the-chain-on-the-given-input', it.call(it.lib.getattr_(it, flow, 'datastream'), [ds]) == 'DS' and
+              seen[-1] == [ds])
+    vc.explore(fk, thunk)
+
+
+def sym_helpers(vc):
+    """row_processor / rows_processor / datapackage_processor"""
+    import z3
+    from pyvc.api import real_function, check, cover, ufunc, sym_row, UFunc, Opaque, GenObj, Cell, Stream
+    H = 'dataflows/helpers/'
+    fk = vc.under_contract(H + 'row_processor.py', ['row_processor', 'process_row'])
+
+    def thunk(it):
+        RP = real_function(it, 'dataflows.helpers.row_processor', 'row_processor')
+        f = ufunc('user_row_fn', pure=False, mutates_row=0)
+        rp = it.call(RP, [f])
+        row = sym_row(it, 'row')
+        r = it.call(it.lib.getattr_(it, rp, 'process_row'), [row])
+        calls_ = [e for e in it.path.events if e.kind == 'Call']
+        check(it, 'user-function-called-once-with-the-row', len(calls_) == 1 and calls_[0].objs[0] is row)
+        res = calls_[0].result
+        if r is row:
+            check(it, 'none-result-means-the-row-itself', Cell.is_none(res))
+        else:
+            check(it, 'other-result-is-returned', z3.And(z3.Not(Cell.is_none(res)), it.cell_of(r) == res))
+    vc.explore(fk, thunk, min_paths=2)
+    fk2 = vc.under_contract(H + 'rows_processor.py', ['rows_processor', 'process_resource'])
+
+    def thunk2(it):
+        RP = real_function(it, 'dataflows.helpers.rows_processor', 'rows_processor')
+        out = Stream('user_output', lambda it_: it_.fresh_row('out'))
+        f = UFunc('user_rows_fn', lambda it_, a, k: (f.__dict__.__setitem__('got', a), out)[1], False)
+        rp = it.call(RP, [f])
+        res = mk_resource(it, 'resource')
+        it.run_generator(it.call(it.lib.getattr_(it, rp, 'process_resource'), [res]))
+        yf = [e for e in it.path.events if e.kind == 'YieldFrom']
+        check(it, 'delegates-to-the-user-generator-over-the-resource', len(yf) == 1 and yf[0].src is out and f.got[0] is res)
+    vc.explore(fk2, thunk2)
+    fk3 = vc.under_contract(H + 'datapackage_processor.py', ['datapackage_processor', 'process_datapackage'])
+    vc.under_contract(H + 'datapackage_processor.py', ['datapackage_processor', 'process_resources'])
+    for first in ('package', 'none'):
+        def thunk3(it, first=first):
+            DP = real_function(it, 'dataflows.helpers.datapackage_processor', 'datapackage_processor')
+            m = it.module('dataflows.helpers.datapackage_processor')
+            gen = Opaque('generator', 'user_generator')
+            newpkg = Opaque('Package', 'user_package')
+            gen.attrs['call:__next__'] = lambda it_, o, a, k: (newpkg if first == 'package' else None)
+            f = UFunc('user_package_fn', lambda it_, a, k: (f.__dict__.__setitem__('got', a), gen)[1], False)
+            dpp = it.call(DP, [f])
+            dp = Opaque('Package', 'dp')
+            dp.attrs['__kinds__'] = ('Package',)
+            r = it.call(it.lib.getattr_(it, dpp, 'process_datapackage'), [dp])
+            pw = f.got[0]
+            check(it, 'user-function-gets-a-wrapper-of-the-package[%s]' % first, getattr(pw, 'attrs', {}).get('pkg') is dp)
+            check(it, 'first-yield-is-the-package-or-none-means-unchanged[%s]' % first, r is (newpkg if first == 'package' else dp))
+            res_iter = Opaque('res_iter', 'res_iter')
+            it.run_generator(it.call(it.lib.getattr_(it, dpp, 'process_resources'), [res_iter]))
+            yf = [e for e in it.path.events if e.kind == 'YieldFrom']
+            check(it, 'remaining-yields-are-the-streams-of-the-same-generator[%s]' % first, len(yf) == 1 and yf[0].src is gen and
+                  pw.attrs.get('it') is res_iter)
+        vc.explore(fk3, thunk3)
+
+
+def sym_conditional(vc):
+    """conditional._process: upstream evaluated once; predicate truthy -> flow.datastream(that very datastream) (flow given
+    directly or produced by calling it with the package); falsy -> the upstream datastream itself"""
+    import z3
+    from pyvc.api import real_function, check, cover, ufunc, Opaque, UFunc
+    fk = vc.under_contract('dataflows/processors/conditional.py', ['conditional', '_process'])
+    for flow_kind in ('flow', 'factory'):
+        def thunk(it, flow_kind=flow_kind):
+            C = real_function(it, 'dataflows.processors.conditional', 'conditional')
+            pred = ufunc('predicate')
+            inner = Opaque('Flow', 'inner_flow')
+            got = {}
+            inner.attrs['call:datastream'] = lambda it_, o, a, k: (got.__setitem__('ds', a[0]), 'INNER-RESULT')[1]
+            inner.attrs['__callable__'] = False
+            if flow_kind == 'flow':
+                flow = inner
+            else:
+                flow = UFunc('flow_factory', lambda it_, a, k: (got.__setitem__('dp', a[0]), inner)[1], False)
+            c = it.call(C, [pred, flow])
+            ds = Opaque('DataStream', 'upstream_ds')
+            ds.attrs['dp'] = Opaque('Package', 'dp')
+            n = [0]
+            src = Opaque('DataStream', 'source')
+            src.attrs['call:_process'] = lambda it_, o, a, k: (n.__setitem__(0, n[0] + 1), ds)[1]
+            c.attrs['source'] = src
+            r = it.call(it.lib.getattr_(it, c, '_process'), [])
+            check(it, 'upstream-evaluated-exactly-once[%s]' % flow_kind, n[0] == 1)
+            if r == 'INNER-RESULT':
+                check(it, 'true-predicate-runs-the-subflow-on-the-upstream-datastream[%s]' % flow_kind, got.get('ds') is ds)
+                if flow_kind == 'factory':
+                    check(it, 'flow-factory-gets-the-package', got.get('dp') is ds.attrs['dp'])
+                cover(it, 'true-reachable[%s]' % flow_kind)
+            else:
+                check(it, 'false-predicate-is-the-identity[%s]' % flow_kind, r is ds)
+                cover(it, 'false-reachable[%s]' % flow_kind)
+        vc.explore(fk, thunk, min_paths=2)
+
+
+def nat_lazy_vs_stepwise(h):
+    """bounded: lazy chained execution == step-by-step evaluation on materialised data; grouping into nested Flows, an
+    always-true conditional and results()/process()/datastream() do not matter; every link kind is interpreted or rejected"""
+    import functools
+    from dataflows import (Flow, conditional, filter_rows, set_type, add_computed_field, delete_fields, rename_fields, sort_rows,
+                           duplicate, concatenate, deduplicate, set_primary_key, unpivot, printer, validate, update_resource, join)
+
+    class Up:
+        def __call__(self, row):
+            row['a'] = row['a'] + 1
+
+    class M:
+        def rows(self, rows):
+            for r in rows:
+                if r['a'] % 3:
+                    yield r
+
+    def addk(k, row):
+        row['a'] += k
+
+    def pkgfn(package):
+        package.pkg.descriptor['title'] = 'T'
+        yield package.pkg
+        for res in package:
+            yield (dict(r, z=1) for r in res)
+
+    def pkgfn_schema(package):
+        for r in package.pkg.descriptor['resources']:
+            r['schema']['fields'].append({'name': 'z', 'type': 'integer'})
+        yield package.pkg
+        for res in package:
+            yield (dict(r, z=1) for r in res)
+    makers = [
+        lambda: filter_rows(lambda r: r['a'] % 2 == 0),
+        lambda: add_computed_field(target='c', operation='format', with_='{a}-{b}'),
+        lambda: Up(), lambda: M().rows, lambda: functools.partial(addk, 5), lambda: (lambda row: row.__setitem__('b', row['b'] + '!')),
+        lambda: sort_rows('{a}', reverse=True), lambda: duplicate(), lambda: printer(num_rows=1), lambda: validate(),
+        lambda: set_type('a', type='number'), lambda: rename_fields({'b': 'bb'}), lambda: delete_fields(['b']),
+        lambda: pkgfn_schema, lambda: update_resource(None, title='x'), lambda: set_primary_key(['a']), lambda: deduplicate(),
+        lambda: [{'n': 1}, {'n': 2}],
+    ]
+    for _ in range(h.n(25, 250)):
+        nres = h.rng.randint(1, 2)
+        n = h.rng.choice([0, 1, 3, 7]) if h.tier == 'quick' or h.rng.random() < 0.8 else 130
+        data = [[{'a': i + k, 'b': 'x%d' % i} for i in range(n)] for k in range(nres)]
+        idx = [h.rng.randrange(len(makers)) for _ in range(h.rng.randint(1, 5))]
+
+        def steps():
+            return [makers[i]() for i in idx]
+
+        def sources():
+            return [[dict(r) for r in rs] for rs in data]
+        lazy = h.run(lambda: Flow(*sources(), *steps()).results(on_error=None))
+        # step by step: each step on the fully materialised output of the previous one
+        def stepwise():
+            res, dp, _ = Flow(*sources()).results(on_error=None)
+            for s in steps():
+                res, dp, _ = Flow(load_mat(dp, res), s).results(on_error=None)
+            return res, dp
+
+        def load_mat(dp, res):
+            from dataflows import load
+            return load((dp.descriptor, [iter([dict(r) for r in rows]) for rows in res]))
+        step = h.run(stepwise)
+        cfg = (idx, n, nres)
+        if lazy[0] != step[0]:
+            h.check(False, 'dataflows/base/flow.py::Flow._chain', cfg, step[:2], lazy[:2], note='one of lazy / stepwise failed')
+            continue
+        if lazy[0] != 'ok':
+            continue
+        h.check(lazy[1][0] == step[1][0] and [r['schema'] for r in lazy[1][1].descriptor['resources']] ==
+                [r['schema'] for r in step[1][1].descriptor['resources']], 'dataflows/base/flow.py::Flow._chain', cfg,
+                step[1][0] if n < 20 else 'rows', lazy[1][0] if n < 20 else 'rows')
+        # grouping / conditional / api independence
+        cut = h.rng.randint(0, len(idx))
+        st = steps()
+        nested = h.run(lambda: Flow(*sources(), Flow(*st[:cut]), Flow(Flow(*st[cut:]))).results(on_error=None))
+        h.check(nested[0] == 'ok' and nested[1][0] == lazy[1][0], 'dataflows/base/flow.py::Flow._chain', (cfg, 'nested', cut), 'same', nested[:1])
+        st = steps()
+        cond = h.run(lambda: Flow(*sources(), *st[:cut], conditional(lambda dp: True, Flow(*st[cut:]))).results(on_error=None))
+        h.check(cond[0] == 'ok' and cond[1][0] == lazy[1][0], 'dataflows/processors/conditional.py::conditional._process',
+                (cfg, 'conditional', cut), 'same', cond[:1])
+        st = steps()
+        viads = h.run(lambda: [list(r) for r in Flow(*sources(), *st).datastream().res_iter])
+        h.check(viads[0] == 'ok' and viads[1] == lazy[1][0], 'dataflows/base/flow.py::Flow.datastream', (cfg, 'datastream'), 'same', viads[:1])
+    for junk in (5, object(), 3.5):
+        r = h.run(lambda: Flow([{'a': 1}], junk).results())
+        h.check(r[0] == 'exc', 'dataflows/base/flow.py::Flow._chain', repr(junk), 'rejected', r[:2])
